@@ -160,16 +160,15 @@ def R3_search_siblings(run):
         fn = facts.need_fn(path + "::get_next_init_tick_index")
         for ab in (True, False):
             pvc = prov_of(fn, {"a_to_b": ab}, cut=True)
-            l = None
-            for loc_ in range(fn.argc + 1, len(fn.locals)):
-                if fn.locals[loc_].get("n") == "curr_offset":
-                    l = loc_
-            defs = [t for (_, _, t) in pvc.var_defs(l)] if l else []
+            # the search cursor: whichever re-assigned local is stepped by one (its name does not matter)
             steps = set()
-            for t in defs:
-                s = strip(t)
-                if s[0] == "bin" and s[1] in ("Add", "Sub", "AddWithOverflow", "SubWithOverflow") and const_val(s[3]) == 1 and s[2][0] == "var":
-                    steps.add(s[1][:3])
+            for loc_ in range(fn.argc + 1, len(fn.locals)):
+                if not fn.locals[loc_].get("n"):
+                    continue
+                for (_, _, t) in pvc.var_defs(loc_):
+                    s = strip(t)
+                    if s[0] == "bin" and s[1] in ("Add", "Sub", "AddWithOverflow", "SubWithOverflow") and const_val(s[3]) == 1 and strip(s[2])[0] == "var" and strip(s[2])[2] == loc_:
+                        steps.add(s[1][:3])
             want = {"Sub"} if ab else {"Add"}
             run.check("R3", "step-direction@%s[a_to_b=%d]" % ("fixed" if path is FIXED else "dynamic", ab), steps == want,
                       "search offset moves by %s for a_to_b=%s, expected %s (a_to_b searches leftwards inclusive, b_to_a rightwards exclusive)" % (sorted(steps), ab, sorted(want)), loc=fn.loc(),
@@ -179,27 +178,45 @@ def R3_search_siblings(run):
     run.touch(fn)
     for shifted in (False, True):
         pv = prov_of(fn, {"shifted": shifted}, cut=True)
-        conds = set()
+        conds = set()   # (op, role of the bound): the bound variable is classified by its initial value, not by its name
+
+        def bound_role(t):
+            t = strip(t)
+            if t[0] != "var":
+                return "?"
+            inits = [strip(d) for (_, _, d) in pv.var_defs(t[2]) if not any(x[0] == "var" and x[2] == t[2] for x in subterms(d))]
+            if len(inits) != 1:
+                return "?"
+            i0 = inits[0]
+            if is_call(i0, "start_tick_index"):
+                return "lower"
+            if i0[0] == "bin" and i0[1].startswith("Add") and is_call(i0[2], "start_tick_index") and mentions(i0[3], lambda s_: s_[0] == "param" and s_[1] == "tick_spacing") and \
+                    mentions(i0[3], lambda s_: s_[0] == "const" and s_[1] == 88):
+                return "upper"
+            return "?"
+        bvars = {}
         for at in A.atoms(fn, {"shifted": shifted}, cut=True):
             c = at.cond()
             if c and is_param(c[1], "tick_index"):
-                conds.add((c[0], arg_name(c[2])))
+                conds.add((c[0], bound_role(c[2])))
+                bvars[bound_role(c[2])] = strip(c[2])
         for bi, bb in enumerate(fn.blocks):
             if bb["t"]["k"] == "ret" and pv.flow.state_in[bi] is not None:
                 for l_ in leaves(pv.local(0, bi, len(bb["s"]))):
                     s_ = strip(l_)
                     if s_[0] == "bin" and is_param(s_[2], "tick_index"):
-                        conds.add((s_[1], arg_name(s_[3])))
+                        conds.add((s_[1], bound_role(s_[3])))
+                        bvars[bound_role(s_[3])] = strip(s_[3])
         lo = hi = None
-        for l in range(fn.argc + 1, len(fn.locals)):
-            n = fn.locals[l].get("n")
-            if n in ("lower", "upper"):
-                ds = [t for (_, _, t) in pv.var_defs(l)]
-                subs = [t for t in ds if strip(t)[0] == "bin" and strip(t)[1] in ("Sub", "SubWithOverflow")]
-                if n == "lower":
-                    lo = len(subs)
-                else:
-                    hi = len(subs)
+        for role_, v_ in bvars.items():
+            if v_[0] != "var":
+                continue
+            ds = [t for (_, _, t) in pv.var_defs(v_[2])]
+            subs = [t for t in ds if strip(t)[0] == "bin" and strip(t)[1] in ("Sub", "SubWithOverflow") and mentions(strip(t)[3], lambda s_: s_[0] == "param" and s_[1] == "tick_spacing")]
+            if role_ == "lower":
+                lo = len(subs)
+            elif role_ == "upper":
+                hi = len(subs)
         ok = conds == {("Ge", "lower"), ("Lt", "upper")} and (lo, hi) == ((1, 1) if shifted else (0, 0))
         run.check("R3", "in_search_range[shifted=%d]" % shifted, ok, "in_search_range(shifted=%s): tests %s, bound shifts (lower %s, upper %s)" % (shifted, sorted(conds), lo, hi), loc=fn.loc(),
                   detail="lower <= tick < upper%s" % (", both bounds shifted by -tick_spacing" if shifted else ""))
@@ -254,9 +271,10 @@ def R4_sequence(run):
         run.check("R4", "edge-test[a_to_b=%d]" % ab, got == {"is_min_tick_array" if ab else "is_max_tick_array"}, "a_to_b=%s consults %s" % (ab, sorted(got)), loc=fn.loc(),
                   detail="is_min_tick_array" if ab else "is_max_tick_array")
         # continuation search index
+        # the search position: the re-assigned local that starts as the `tick_index` parameter
         l = None
         for loc_ in range(fn.argc + 1, len(fn.locals)):
-            if fn.locals[loc_].get("n") == "search_index":
+            if fn.locals[loc_].get("n") and len(pv.var_defs(loc_)) >= 2 and any(is_param(t, "tick_index") for (_, _, t) in pv.var_defs(loc_)):
                 l = loc_
         defs = [strip(t) for (_, _, t) in pv.var_defs(l)] if l else []
         cont = [t for t in defs if not is_param(t, "tick_index")]
